@@ -147,6 +147,8 @@ func init() {
 		"strings.Clone":                ext1(func(fr *frame, a []value) value { return a[0] }),
 		"internal/race.Enabled":        noop,
 
+		"github.com/mailru/easyjson/jlexer.bytesToStr": ext1(func(fr *frame, a []value) value { return mkStr(a[0].([]value)) }),
+
 		// ---- runtime ----
 		"runtime.KeepAlive":    noop,
 		"runtime.SetFinalizer": noop,
